@@ -19,7 +19,7 @@ for d in sorted(glob.glob('/verif/seeded/M*')):
     rows.append(f"| {n} | {m['breaks_property']} | {short} | {first} | {', '.join(m['detected_by_checks'])} |")
 p='/verif/DESIGN.md'
 s=open(p).read()
-a=s.index("Rounds 2 and 3 (")
+a=s.index("Rounds 2, 3 and 4 (") if "Rounds 2, 3 and 4 (" in s else s.index("Rounds 2 and 3 (")
 b=s.index("What the misses had in common")
 hdr='''Rounds 2, 3 and 4 (from round 3 on the agents were additionally told which kinds of change had already been
 seeded for their property and asked for a different site, mechanism and trigger):
